@@ -10,7 +10,8 @@ NOTE = ("Trusted: z3/cvc5; the pyvc VC generator (symex/values/arrays/contract);
         "(pyvc/stubs.py, rotation.py); machine floats as reals, fixed-width ints as integers; termination not proved. ")
 CLAIMED = {
     "C01": ("DESIGN.md section 2 / C01",
-            "Deductive, any number of molecules (summarised loops) and all SO(3) orientations: LoaderBase._post_align turns "
+            "Deductive, any number of molecules (summarised loops) and all SO(3) orientations: LoaderBase._post_align and "
+            "_post_align_multi_templates (label column, modulo the template count) turn "
             "result i into pos_i + scale*M_i s_i and M_i R_i with score/shift features of result i and the molecule's own "
             "feature row kept; Molecules.linear_transform / translate_internal / rotate_by_rotvec_internal implement "
             "'translate by the un-rotated shift in the molecule frame, then rotate internally'.",
@@ -46,12 +47,12 @@ CLAIMED = {
     "C07": ("DESIGN.md section 2 / C07",
             "Deductive for WHICH arrays are correlated and with which formula: ncc(a, b) == sum(a*b)/sqrt(sum(a*a) sum(b*b)), "
             "zncc is the same on the mean-centred images (Pearson); ZNCCAlignment / NCCAlignment.score correlate the inverse "
-            "transforms of lowpass(img * mask) and of the model's cached pre-transformed template (mask -> low-pass -> wedge "
-            "order, cutoff of the model), for every box shape.",
+            "transforms of wedge * lowpass(img * mask) and of wedge * the model's cached pre-transformed template (mask -> "
+            "low-pass -> wedge order on both sides, cutoff of the model; no-wedge and single-axis wedge), for every box shape.",
             NOTE + "Sums over voxels are uninterpreted values with their summand as ghost state: the range [-1, 1], the value 1 "
             "for identical inputs, the invariance under a*x+b and the agreement of score / landscape centre / zero-range "
-            "alignment score need sum and convolution algebra that is not built and are NOT claimed; tilt models other than "
-            "no-wedge, PCC and FSC scores are not under contract."),
+            "alignment score need sum and convolution algebra that is not built and are NOT claimed; PCC and FSC scores "
+            "and union tilt models are not under contract."),
     "C08": ("DESIGN.md section 2 / C08",
             "Deductive, all box shapes / orientations / tilt ranges: the three copies of the FFT-ordered index grid "
             "equal fftindex per axis; the single-axis masks (tilt models, backend helper, utility) keep bin k iff "
@@ -136,7 +137,8 @@ CLAIMED = {
             "Deductive for the part a contract can decide: exactness needs the decomposition to come from da.linalg.svd; "
             "DaskPCA._get_solver (configuration used by PcaClassifier: svd_solver='auto') is proved to return 'full' for "
             "every data shape and n_components outside the recorded known finding (randomized solver for "
-            "max(n_samples,n_features) > 500 and n_components < 0.8*min).",
+            "max(n_samples,n_features) > 500 and n_components < 0.8*min); PcaClassifier masks the stack it fits and the "
+            "stack it transforms alike; DaskPCA.transform centres with the fitted mean and projects on the fitted components.",
             NOTE + "Equality of da.linalg.svd with an exact SVD, k-means separation and the label write-back loop are "
             "not under contract (numerical / not yet built)."),
     "C19": ("DESIGN.md section 2 / C19",
@@ -153,12 +155,14 @@ CLAIMED = {
             "local index l of a block extended by the overlap depth is reported at (chunk_start + l - depth_used) * scale "
             "with its own rotation and score; a block reports exactly its picks whose voxel lies in its own chunk (none "
             "from the overlap margins, none lost); LoG / DoG parameters are converted to pixels with the scale; LoG / DoG "
-            "picks carry the identity rotation; the template-bank index is looked up in the searched rotations. The "
-            "clause 'overlap depth covers the dependency radius' fails and is a recorded known finding.",
+            "picks carry the identity rotation; the template matcher reports a searched rotation whose template scores best "
+            "at the maximum, at landscape index + (template + 1)/2, also for zero maxima; the blocks' extension does not "
+            "depend on the chunking. The clause 'overlap depth covers the dependency radius' fails and is a recorded "
+            "known finding.",
             NOTE + "That LoG / DoG / ZNCC maxima sit on the particles is numerical (scipy filters, labelling, centre of mass: "
             "trusted, abstract picks); dask's map_overlap contract (block extension, array-location, depth as int / tuple / "
-            "list) is trusted as observed with the installed dask; BaseTemplateMatcher.get_params_and_depth and the ZNCC "
-            "landscape offset are not under contract."),
+            "list) is trusted as observed with the installed dask; BaseTemplateMatcher.get_params_and_depth (the rotated "
+            "template bank) is not under contract."),
 }
 NA_REASONS = {
     "C04": "Contract-based deductive verification cannot decide this property: 'the reported shift equals the true displacement "
